@@ -245,7 +245,8 @@ def leaf (F : Nat) : Nat → Tok → Song → Song
         | some n => changeTrack s (if n < 0 then 0 else n.toNat)
         | none => { s with bad := true })
     | .channel => (match constArg tk with
-        | some n => s.setT { t with channel := clampI 1 n 16 - 1 }
+        | some n => s.setT { t with channel := clampI 1 n 16 - 1,      -- the bend range is a setting of the channel: on another channel it has to be sent again
+                                    bendRange := if t.channel = clampI 1 n 16 - 1 then t.bendRange else 0 }
         | none => { s with bad := true })
     | .trackSync => { s with tracks := s.tracks.map (fun x => { x with timepos := t.timepos }) }
     | .sub =>
